@@ -12,6 +12,7 @@ package main
 import (
 	"bytes"
 	"context"
+	"errors"
 	"fmt"
 	"math/rand/v2"
 	"strings"
@@ -441,6 +442,96 @@ func largeListings(run *evid.Run, idx int) {
 	}
 }
 
+// midwayFailure: a backend whose listing iterators fail after some items (a storage error halfway
+// through). Directly the call ends in that error; through the logging wrapper and through client and
+// server it has to end in an error with the same code too - not in a shorter listing that looks complete.
+func midwayFailure(run *evid.Run, idx int) {
+	rng := run.Rand(34, uint64(idx))
+	mem := ocimem.New()
+	data := []byte("opaque manifest")
+	nTags := 3 + rng.IntN(6)
+	for i := 0; i < nTags; i++ {
+		mem.PushManifest(context.Background(), "mid/way", fmt.Sprintf("t%d", i), data, "application/x-opaque")
+		mem.PushManifest(context.Background(), fmt.Sprintf("mid/r%d", i), "", data, "application/x-opaque")
+	}
+	after := rng.IntN(nTags) // items delivered before the failure
+	boom := []error{ociregistry.ErrDenied, ociregistry.ErrUnauthorized, ociregistry.NewError("storage went away", "STORAGE_GONE", nil), errors.New("plain failure")}[idx%4]
+	// the failure is tied to a position in the listing (the item of that rank and everything after it
+	// is unreachable), not to a call count: however the listing is paged, it fails at the same place
+	cut := func(seq ociregistry.Seq[string], failAt string) ociregistry.Seq[string] {
+		return func(yield func(string, error) bool) {
+			seq(func(s string, e error) bool {
+				if e != nil {
+					return yield(s, e)
+				}
+				if s >= failAt {
+					yield("", boom)
+					return false
+				}
+				return yield(s, nil)
+			})
+		}
+	}
+	faulty := &ociregistry.Funcs{
+		Tags_: func(ctx context.Context, repo, startAfter string) ociregistry.Seq[string] {
+			return cut(mem.Tags(ctx, repo, startAfter), fmt.Sprintf("t%d", after))
+		},
+		Repositories_: func(ctx context.Context, startAfter string) ociregistry.Seq[string] {
+			return cut(mem.Repositories(ctx, startAfter), fmt.Sprintf("mid/r%d", after))
+		},
+	}
+	c := config{Hops: idx % 3, Debug: []string{"backend", "client", "both", "none"}[(idx/3)%4], PageSize: []int{2, 1000}[idx%2]}
+	var top ociregistry.Interface = faulty
+	if c.Debug == "backend" || c.Debug == "both" {
+		top = ocidebug.New(top, nolog)
+	}
+	var closers []func()
+	for h := 0; h < c.Hops; h++ {
+		r, cl := stack.HTTP(top, stack.HTTPOpts{PageSize: c.PageSize})
+		closers = append(closers, cl)
+		top = r
+	}
+	if c.Debug == "client" || c.Debug == "both" {
+		top = ocidebug.New(top, nolog)
+	}
+	defer func() {
+		for _, cl := range closers {
+			cl()
+		}
+	}()
+	a, b := model.NewEnv(faulty), model.NewEnv(top)
+	run.Eval(1)
+	for _, op := range []*model.Op{{Kind: "Tags", Repo: "mid/way"}, {Kind: "Repositories"}} {
+		oa := a.Exec(op)
+		var ob *model.Outcome
+		w := map[string]any{"config": c, "op": op.String(), "items_before_failure": after, "failure": boom.Error(), "direct": oa.String()}
+		if !run.Case("midway-failure/total/"+op.Kind, w, func() { ob = b.Exec(op) }) {
+			return
+		}
+		w["through_stack"] = ob.String()
+		run.Count("midway_failures", 1)
+		run.Distinct(fmt.Sprintf("midway-failure/%s/hops=%d/debug=%s/%s", op.Kind, c.Hops, c.Debug, ob.Class()))
+		if oa.OK {
+			run.Inconclusive("midway-failure: the faulty backend did not fail")
+			return
+		}
+		if ob.OK {
+			run.Violation("midway-failure/error-lost/"+op.Kind+"/debug="+c.Debug, fmt.Sprintf("%s fails directly (%s) after %d items; through hops=%d debug=%s it ends cleanly with %d items", op, oa.Err, after, c.Hops, c.Debug, len(ob.Items)), w)
+			continue
+		}
+		ca, cb := oa.Code, ob.Code
+		if ca == "" {
+			ca = "UNKNOWN"
+		}
+		if cb == "" {
+			cb = "UNKNOWN"
+		}
+		if ca != cb {
+			run.Violation("midway-failure/code/"+op.Kind, fmt.Sprintf("%s fails directly with code %s; through hops=%d debug=%s with code %s", op, ca, c.Hops, c.Debug, cb), w)
+		}
+	}
+}
+
 func main() {
 	run := evid.Start("C03", "exploration")
 	run.SetRule("a case is one history of Interface calls (pushes incl. composite chunked uploads with resume, mounts, manifests incl. 127/128/128+1 KiB ones, deletes, reads, ranges, listings with start points) executed on twin registries: ocimem directly and ociclient→ociserver(→second hop)→recording ocimem, under one of the 16 server option sets × {1,2} hops × ocidebug placement × {in-process transport, loopback}; names and tags are drawn from routing words (blobs, manifests, uploads, tags/list, referrers, v2). " +
@@ -509,6 +600,10 @@ func main() {
 	for i, nl := 0, run.N(4, 24); i < nl; i++ {
 		largeListings(run, i)
 	}
+	for i, nm := 0, run.N(96, 2400); i < nm; i++ {
+		midwayFailure(run, i)
+	}
+	run.FloorCounter("midway_failures", 100)
 	run.FloorCounter("large_listings", 8)
 	run.FloorCounter("backend_calls", 5000)
 	run.FloorCounter("errors_relayed", 500)
